@@ -244,6 +244,32 @@ extern "C" void h_many_names(void) {
    for (int k = 0; k < 2; ++k) { unsigned n = vp_pick(Names::NN), t = vp_pick(2); step(n, t); oracle(); }
    vp_done();
 }
+// function declarations of one name whose types differ only in the exception specification and / or the transfer (extern "C" variants): four
+// distinct types, C07_K symbolic declarations; each is grouped with the declarations of exactly its own type, whatever was declared before
+extern "C" void h_function_variants(void) {
+   World* w = new World; auto& lx = w->lx; auto& sc = w->ns->body.scope; const ipr::Scope& scope = sc;
+   impl::Warehouse<ipr::Type> wh; wh.push_back(lx.int_type());
+   const ipr::Product& P = lx.get_product(wh); auto& cxf = lx.get_transfer_from_linkage(lx.c_linkage());
+   const ipr::Function* F[4] = { &lx.get_function(P, lx.bool_type()), &lx.get_function(P, lx.bool_type(), lx.true_value()), &lx.get_function(P, lx.bool_type(), cxf), &lx.get_function(P, lx.bool_type(), lx.true_value(), cxf) };
+   unsigned pt[C07_K]; const ipr::Decl* d[C07_K];
+   for (int k = 0; k < C07_K; ++k) {
+      pt[k] = vp_pick(4); d[k] = sc.make_fundecl(*w->N[0], *F[pt[k]]);
+      auto ovl = scope[*w->N[0]]; vp_assert(ovl.is_valid(), 80);
+      for (int i = 0; i <= k; ++i) {
+         vp_assert(&d[i]->type() == F[pt[i]], 81);
+         int first = -1, cnt = 0; for (int j = k; j >= 0; --j) if (pt[j] == pt[i]) { first = j; ++cnt; }
+         vp_assert(&d[i]->master() == d[first] && d[i]->decl_set().size() == (std::size_t)cnt, 82);
+      }
+      if (ovl.is_valid()) for (unsigned t = 0; t < 4; ++t) {
+         int first = -1; for (int j = k; j >= 0; --j) if (pt[j] == t) first = j;
+         auto sel = ovl.get()[*F[t]];
+         vp_assert(sel.is_valid() == (first >= 0) && (first < 0 || &sel.get() == d[first]), 83);
+      }
+      auto prod = util::view<ipr::Product>(scope.type());
+      vp_assert(prod && prod->size() == (std::size_t)(k + 1) && &(*prod)[k] == F[pt[k]], 84);
+   }
+   vp_done();
+}
 // a declaration that is refused leaves the scope as it was: an alias whose initializer has no type yet cannot be declared (logic_error);
 // afterwards the name is still undeclared (no overload set, no member), and declaring it properly works as on a fresh scope
 extern "C" void h_refused_declaration(void) {
